@@ -1,4 +1,5 @@
 import SJ.Generated.Consts
+import SJ.Proofs.ParseWF
 import SJ.Proofs.Pipeline
 import SJ.Proofs.WalkSafe
 import SJ.Proofs.Rebuild
@@ -49,5 +50,15 @@ theorem C05_owalk (pj : PJ) : OkOrErr (owalk pj) := owalk_safe pj
 theorem C05_iter_valid (pj : PJ) : Iter.Valid pj (Iter.ofPJ pj) := ofPJ_valid pj
 /-- room for one more block and the tail block in every index buffer -/
 theorem C05_buffer_bound : cindexSizeWithSafetyBuffer + 64 + 64 ≤ cindexSize := by decide
+
+
+open SJ.ParseDefs in
+/-- On every result `Parse`/`ParseND` returns, the complete ordered traversal (ForEach over roots, arrays by
+    Advance, objects by NextElementBytes, typed accessors at the leaves) terminates without panic and without
+    error. (For arbitrary tapes — e.g. after Deserialize of corrupt bytes — `WalkSafe` gives no-panic/termination.) -/
+theorem C05_parse_then_walk (cfg : Cfg) (nd : Bool) (input : Bytes) (pj : PJ) (hsz : SizeOK (trimSpace input))
+    (h : parseAny cfg nd input = .ok pj) : ∃ ds, owalk pj = .ok ds := by
+  obtain ⟨_, _, _, _, _, _, ⟨ds, hd, _⟩, _⟩ := SJ.ParseWF.parse_wf cfg nd input pj hsz h
+  exact ⟨ds, hd⟩
 
 end SJ.Properties.C05
